@@ -606,6 +606,13 @@ def run(ctx, report):
         if fn0 is None:
             continue
         inst = 'denotation %r (%s)' % (op, deal[op])
+        if op in ('<<', '>>', 'a>>'):
+            problems_, n_vec_ = shift_denotation(ea, methods, fn0, op)
+            if problems_:
+                R5.violation(inst + ':evaluated', 'denot:%s:%s' % (op, problems_[0][0]), '%s (operator %r): %s' % (fn0.name, op, '; '.join(p_[1] for p_ in problems_[:2])), where(ea, fn0),
+                             witness='shrd eax, ebx, cl with cl = 0x20' )
+            else:
+                R5.ok(inst + ':evaluated', sample='%r: %s agrees with the IR meaning (a count of at least the width shifts every bit out) on %d vectors (evaluated)' % (op, fn0.name, n_vec_))
         # contradiction rule: operands are unsigned modular integers (uintN); a sign decision made by comparing one with 0
         # is constant, so one branch of the evaluator is dead and the other handles both signs
         for n in ast.walk(fn0):
@@ -814,6 +821,46 @@ def arith_family(op):
     if m.group(1):
         return m.group(1), int(m.group(2))
     return m.group(3) + '_' + m.group(5), int(m.group(4))
+
+
+def shift_denotation(ea, methods, fn, op):
+    """The constant evaluator of << / >> / a>> evaluated from its source on fixed-width operands (model of modint.py) of 8, 16 and 32 bits and counts below, at and above the
+    width (same width and 8-bit counts): the IR shifts are not masked -- the simplifier folds x << 32 to 0 and the lifter's shrd relies on it."""
+    from ..consteval import Evaluator as _Ev, NotConst as _NC, Obj as _Obj, PyRaise as _PR
+    from .. import simpeval as SE
+    env = {'mymaxuint': {1: 1, 8: 0xFF, 16: 0xFFFF, 32: 0xFFFFFFFF, 64: 0xFFFFFFFFFFFFFFFF}}
+    env.update(SE.INT_CLASSES)
+    me = _Obj('self')
+    me.__dict__['_methods'] = dict(methods)
+    problems, n_vec = [], 0
+    for w in (8, 16, 32):
+        m = (1 << w) - 1
+        for a in (0, 1, m, 1 << (w - 1), (1 << (w - 1)) - 1, 0x5A & m, 0xDEADBEEF & m):
+            for cw in (w, 8):
+                for cnt in (0, 1, w - 1, w, w + 1, 2 * w, 0x20, 0x40, 0xFF):
+                    if cnt >= (1 << cw):
+                        continue
+                    if op == '<<':
+                        want = (a << cnt) & m if cnt < w else 0
+                    elif op == '>>':
+                        want = a >> cnt if cnt < w else 0
+                    else:
+                        sv = a - (1 << w) if a >> (w - 1) else a
+                        want = (sv >> min(cnt, w)) & m
+                    try:
+                        got = _Ev(dict(env)).call_user(fn, [me, [SE.U[w](a), SE.U[cw](cnt)], w, SE.U[w]])
+                    except _PR as e:
+                        problems.append(('raises', '%#x %s %d on %d bits raises %s' % (a, op, cnt, w, e.exc_name), None))
+                        continue
+                    except _NC as e:
+                        from ..core import AnalysisError as _AE
+                        raise _AE('%s is outside the statically evaluable subset: %s' % (fn.name, e))
+                    n_vec += 1
+                    if not isinstance(got, int) or (int(got) & m) != want:
+                        problems.append(('value', '%#x %s %d on %d bits gives %s, the operator means %#x' % (a, op, cnt, w, hex(int(got) & m) if isinstance(got, int) else repr(got), want), None))
+                        if len(problems) > 3:
+                            return problems, n_vec
+    return problems, n_vec
 
 
 def arith_denotation(ea, methods, fn, op):
@@ -1121,6 +1168,7 @@ def addr_width_rule(R, ea, methods):
 
 
 MUTANTS = [
+    ('shift-eval-count-masked', 'miasmx/expression/expression_eval_abstract.py', "    def eval_op_rshift(self, args, op_size, cast_int):\n        r = args[1]#&0x1F", "    def eval_op_rshift(self, args, op_size, cast_int):\n        r = args[1]&0x1F", 'C06.D5'),
     ('mem-read-not-folded', 'miasmx/expression/expression_eval_abstract.py', "                    if ee is not None:\n                        # every piece is a constant: so is the cell\n                        return ee\n", "", 'C06.D6'),
     ('const-compose-no-slice-shift', 'miasmx/expression/expression_eval_abstract.py', "                v = int(x.arg.arg) >> x.start\n", "                v = int(x.arg.arg)\n", 'C06.D6'),
     ('idiv-floor', 'miasmx/expression/expression_eval_abstract.py', "        q = abs(big) // abs(c)\n        if (big < 0) != (c < 0):\n            q = -q\n", "        q = big // c\n", 'C06.D5'),
